@@ -4,7 +4,7 @@ import random
 
 # op -> (arity of int args, special)
 ARGN = {
-    "cube": 4, "lbox": 6, "cellrow": 3, "sphere": 2, "cyl": 5, "tet": 0, "levelset": 4, "extrude": 5, "revolve": 4, "hullpts": 3,
+    "cube": 4, "lbox": 6, "cellrow": 3, "nest": 15, "speck": 4, "sphere": 2, "cyl": 5, "tet": 0, "levelset": 4, "extrude": 5, "revolve": 4, "hullpts": 3,
     "rot": 4, "rot90": 4, "trans": 4, "ltrans": 4, "scale": 4, "mirror": 4, "xf": 10,
     "add": 2, "sub": 2, "int": 2, "split": 2, "splitplane": 5, "trim": 5, "selfop": 3, "compose": 3,
     "hull": 1, "hull2": 2, "minksum": 4, "minkdiff": 4,
@@ -19,6 +19,7 @@ ARGN = {
 
 # Op mixes. Weights are relative.
 MIX_GENERAL = {
+    "nest": 2, "speck": 1,
     "cube": 3, "sphere": 4, "cyl": 2, "tet": 1, "levelset": 1, "extrude": 1, "revolve": 1, "hullpts": 1,
     "rot": 4, "trans": 3, "scale": 1, "mirror": 1, "xf": 1, "rot90": 1,
     "add": 5, "sub": 5, "int": 3, "batch": 2, "split": 1, "splitplane": 1, "trim": 1, "selfop": 1, "compose": 1,
@@ -33,7 +34,7 @@ MIX_GENERAL = {
 
 # Degenerate / coincident operands (C01)
 MIX_LATTICE = {
-    "lbox": 8, "cellrow": 2, "ltrans": 4, "rot90": 3, "copy": 1, "cube": 1, "tet": 1,
+    "lbox": 8, "cellrow": 2, "speck": 2, "ltrans": 4, "rot90": 3, "copy": 1, "cube": 1, "tet": 1,
     "add": 6, "sub": 6, "int": 4, "batch": 3, "split": 2, "compose": 1, "selfop": 2,
     "hull": 1, "refine": 1, "simplify": 2, "settol": 1, "decompose": 2, "rt64": 1, "asorig": 1, "smoothout": 1,
     "refinelen": 1, "minksum": 1, "calcnorm": 1, "setprops": 1, "warp": 1, "splitplane": 1, "mirror": 1,
